@@ -344,6 +344,7 @@ func report(p *Program, id string, cfg *PropCfg, res *checkResult, tier string, 
 			}
 			if u, ok := undec[id+"|"+o.Name]; ok && o.Status != "proved" {
 				undecidedNow = append(undecidedNow, o.Name+": "+u.Reason)
+				fmt.Printf("UNDECIDED: property=%s %s (not counted as discharged, not a violation): %s\n", id, o.Name, truncate(u.Reason, 160))
 				continue
 			}
 			total++
@@ -380,6 +381,11 @@ func report(p *Program, id string, cfg *PropCfg, res *checkResult, tier string, 
 	for _, o := range res.structural {
 		total++
 		failed = append(failed, o)
+	}
+	if total == 0 {
+		// a check that generates nothing proves nothing
+		total++
+		failed = append(failed, &Obligation{Name: id + "#no-obligations", Kind: "vacuity", Status: "failed", Note: "the check generated no obligation at all"})
 	}
 	violations := 0
 	for _, o := range failed {
